@@ -926,6 +926,20 @@ theorem applyAct_invR_cloneField (k : Nat) (he : (applyAct s fh fw (.cloneField 
     simp only [Below_append, Below_cons, Below_nil, and_true]
     exact ⟨h1.roots_below, by simpa using hlt⟩
 
+theorem applyAct_invR_downgradeField (k : Nat)
+    (he : (applyAct s fh fw (.downgradeField k)).err = none) :
+    (applyAct s fh fw (.downgradeField k)).InvR := by
+  cases hn : nthMod fh k with
+  | none => simp only [applyAct, hn]; exact h
+  | some o =>
+    simp only [applyAct, hn] at he ⊢
+    obtain ⟨-, ob, hc, -⟩ := (incWeak_err_eq_none_iff s o).mp he
+    have hlt : o < s.heap.length := cell_some_lt s o ob hc
+    have h1 := h.incWeak o
+    refine h1.withWroots _ ?_
+    simp only [Below_append, Below_cons, Below_nil, and_true]
+    exact ⟨h1.wroots_below, by simpa using hlt⟩
+
 end acts
 
 theorem applyAct_invR (s : State) (fh fw : List Nat) (a : Act) (h : s.InvR)
@@ -960,6 +974,7 @@ theorem applyAct_invR (s : State) (fh fw : List Nat) (a : Act) (h : s.InvR)
   | setShallow q => exact applyAct_invR_setShallow s fh fw h q
   | upgradeField k => exact applyAct_invR_upgradeField s fh fw h k
   | cloneField k => exact applyAct_invR_cloneField s fh fw h k he
+  | downgradeField k => exact applyAct_invR_downgradeField s fh fw h k he
 
 theorem applyOp_invR (s : State) (op : Op) (h : s.InvR) (he : (applyOp s op).err = none) :
     (applyOp s op).InvR := by
